@@ -88,6 +88,7 @@ class Network(object):
         self.net   = memzmq.install(memzmq.Net(seed=seed, mode='pumped'))
         self.sides = sides
         self.seen  = {s: {c[0]: [] for c in CHANNELS} for s in sides}
+        self.msgs  = {s: {c[0]: [] for c in CHANNELS} for s in sides}
         self.sessions = dict()
         self.refused  = None
         for side in sides:
@@ -111,6 +112,7 @@ class Network(object):
             for chan, _ in CHANNELS:
                 def cb(topic, msg, side=side, chan=chan):
                     self.seen[side][chan].append(_mid(msg))
+                    self.msgs[side][chan].append(msg)
                 memzmq.Subscriber(chan, url='mem://%s/%s' % (side, chan),
                                   topic=chan, cb=cb)
 
@@ -213,6 +215,51 @@ def check(nw, sent, res, case):
         if hops > 2 + (n - 1):
             res.violation('message-circulates', '%s published %d times'
                           % (mid, hops), ctx)
+
+
+def rpc_roundtrip(res, rng):
+    """a request which crosses the proxy and the answer a component on
+    another side builds FROM THE REQUEST AS IT ARRIVED there: the answer
+    reaches every other side (the requester among them) exactly once"""
+    import radical.pilot.messages as m_msgs
+    chan  = rpc.CONTROL_PUBSUB
+    sides = ['client'] + ['pilot.%04d' % k for k in range(rng.randint(1, 3))]
+    a     = rng.choice(sides)
+    b     = rng.choice([s_ for s_ in sides if s_ != a])
+    nw    = Network(sides, rng.randint(0, 2 ** 30))
+    case  = {'sides': sides, 'requester': a, 'responder': b}
+    try:
+        req = m_msgs.RPCRequestMessage(uid='rpc.req.0', addr=b, cmd='do_it',
+                                       args=[1], kwargs={})
+        nw.publish(a, chan, req)
+        nw.net.drain(limit=2000)
+        got = [m for m in nw.msgs[b][chan] if _mid(m) == 'rpc.req.0']
+        res.count('rpc_roundtrips')
+        if len(got) != 1:
+            res.violation('forwarded-message-lost' if not got else
+                          'forwarded-message-duplicated', 'the responder %s '
+                          'saw the request %d times' % (b, len(got)), case)
+            return
+        arrived = ru.zmq.Message.deserialize(dict(got[0]))
+        result  = m_msgs.RPCResultMessage(rpc_req=arrived, val='done')
+        nw.publish(b, chan, result)
+        nw.net.drain(limit=2000)
+        for s_ in sides:
+            n = sum(1 for m in nw.msgs[s_][chan]
+                    if isinstance(m, dict) and m.get('_msg_type') == 'rpc_res'
+                    and m.get('uid') == 'rpc.req.0')
+            res.count('rpc_result_deliveries_checked')
+            if n != 1:
+                res.violation('rpc-result-lost' if n == 0 else
+                              'rpc-result-duplicated', '%s saw the result '
+                              '%d times (requester %s, responder %s)'
+                              % (s_, n, a, b), case)
+                return
+    except RuntimeError:
+        res.violation('message-circulates', 'rpc traffic does not settle',
+                      case)
+    finally:
+        nw.close()
 
 
 def run_cells(ctx, res):
@@ -463,6 +510,11 @@ def advance_threads(res, rng, idx):
 def run(ctx):
     res = Result()
     run_cells(ctx, res)
+    rrng = ctx.rng('rpc')
+    for i in range(ctx.n(400, 40000)):
+        rpc_roundtrip(res, rrng)
+        if len(res.violations) > 5:
+            break
     trng = ctx.rng('advance-threads')
     for i in range(ctx.n(240, 20000)):
         advance_threads(res, trng, i)
